@@ -264,7 +264,8 @@ func arithClassify(s string) (arithKind, int64, int) {
 }
 
 type c05Case struct {
-	Input string `json:"input"`
+	Input     string `json:"input"`
+	Placement int    `json:"file_placement,omitempty"`
 	// History: the inputs evaluated before with the SAME parser objects (a parser is built once and reused; the two
 	// objects are renewed every c05Renew inputs so that the state they may keep between parses stays replayable)
 	History []string `json:"inputs_evaluated_before_with_these_parser_objects,omitempty"`
@@ -285,16 +286,19 @@ func c05RenewParsers() {
 // examples/json does it (RightTrim then sees an alternative LIST whose first alternative is not the longest)
 var arithSplitRoot = func() parsley.Parser { return ArithParserSplit() }()
 
+// c05Placement: index into placements for the main evaluation of c05One (0: the file alone)
+var c05Placement = 0
+
 func c05One(res *explore.Result, s string, verbose bool) arithKind {
 	kind, want, dzAt := arithClassify(s)
-	fs, _, r, _ := place(placements[0], "f", []byte(s))
+	fs, _, r, _ := place(placements[c05Placement], "f", []byte(s))
 	ctx := parsley.NewContext(fs, r)
 	var val interface{}
 	var err error
 	if len(c05Hist) >= c05Renew {
 		c05RenewParsers()
 	}
-	cs := c05Case{strconv.Quote(s), append([]string{}, c05Hist...)}
+	cs := c05Case{strconv.Quote(s), c05Placement, append([]string{}, c05Hist...)}
 	c05Hist = append(c05Hist, strconv.Quote(s))
 	res.Add("transitions", 1)
 	if pm := guard(func() { val, err = parsley.Evaluate(ctx, arithRoot) }); pm != "" {
@@ -432,6 +436,17 @@ func c05Run(env *explore.Env) *explore.Result {
 			return
 		}
 		kind := c05One(res, s, false)
+		if len(s) <= 4 {
+			// short inputs also as a later file of a set whose reader was created before the file was added (reports of
+			// a division by zero go through the file set: name, line and column must still be this file's)
+			for pi, pl := range placements {
+				if pl.readerFirst || len(pl.following) > 0 {
+					c05Placement = pi
+					c05One(res, s, false)
+				}
+			}
+			c05Placement = 0
+		}
 		res.Add("states", 1)
 		res.Add("traces", 1)
 		switch kind {
@@ -452,6 +467,16 @@ func c05Run(env *explore.Env) *explore.Result {
 			res.Add("unspecified_leading_zero_literal", 1)
 		}
 	})
+	// every byte value between two tokens: only space, tab, line feed and form feed are blanks
+	for v := 0; v < 256; v++ {
+		if !env.Mine(int64(v)) {
+			continue
+		}
+		for _, s := range []string{"1 +" + string([]byte{byte(v)}) + "2", "8" + string([]byte{byte(v)}) + " / 2", "(1" + string([]byte{byte(v)}) + ")"} {
+			c05One(res, s, false)
+			res.Add("byte_sweep_inputs", 1)
+		}
+	}
 	fam := c05Families()
 	for i, s := range fam {
 		if !env.Mine(int64(i)) {
@@ -477,6 +502,10 @@ func c05Replay(raw json.RawMessage) *explore.Result {
 	if err != nil {
 		res.Notes = append(res.Notes, "bad input")
 		return res
+	}
+	if c.Placement > 0 && c.Placement < len(placements) {
+		c05Placement = c.Placement
+		defer func() { c05Placement = 0 }()
 	}
 	c05RenewParsers()
 	for _, hq := range c.History {
